@@ -12,11 +12,11 @@ Local Opaque fix_body int_body lpad rpad parse_float parse_int strip lstrip rstr
 (* ---- tokens ---- *)
 Definition tokp (b : str) : Prop := no_ws b = true /\ b <> [].
 
-Lemma first_tok_sp_mid b r : tokp b -> first_tok (sp :: b ++ sp :: r) = Some b.
+Lemma first_tok_sp_mid b r : tokp b -> first_tok (" "%char :: b ++ " "%char :: r) = Some b.
 Proof. intros [H1 H2]. unfold first_tok. rewrite split_ws_cons by reflexivity. rewrite split_mid by reflexivity. rewrite (split_tok _ H1 H2). reflexivity. Qed.
-Lemma first_tok_sp b : tokp b -> first_tok (sp :: b) = Some b.
+Lemma first_tok_sp b : tokp b -> first_tok (" "%char :: b) = Some b.
 Proof. intros [H1 H2]. unfold first_tok. rewrite split_ws_cons by reflexivity. rewrite (split_tok _ H1 H2). reflexivity. Qed.
-Lemma first_tok_mid b r : tokp b -> first_tok (b ++ sp :: r) = Some b.
+Lemma first_tok_mid b r : tokp b -> first_tok (b ++ " "%char :: r) = Some b.
 Proof. intros [H1 H2]. unfold first_tok. rewrite split_mid by reflexivity. rewrite (split_tok _ H1 H2). reflexivity. Qed.
 
 Lemma tokp_int z : tokp (int_body z). Proof. exact (int_body_token z). Qed.
@@ -66,6 +66,14 @@ Proof.
   destruct (dchar_props k Hk) as [E _]. rewrite E in H0. discriminate.
 Qed.
 
+Lemma nocrlf_cons c t : Ascii.eqb nl c = false -> Ascii.eqb cr c = false -> nocrlf t -> nocrlf (c :: t).
+Proof. intros H1 H2 [A B]. split; [change (Ascii.eqb nl c || has_char nl t = false); rewrite H1, A|change (Ascii.eqb cr c || has_char cr t = false); rewrite H2, B]; reflexivity. Qed.
+Lemma nocrlf_tokp b : tokp b -> nocrlf b.
+Proof. intros [H _]. apply nocrlf_no_ws. exact H. Qed.
+Ltac nocrlf_line :=
+  repeat first [ exact nocrlf_nil | apply nocrlf_cons; [reflexivity|reflexivity|] | apply nocrlf_int | apply nocrlf_fix
+               | apply nocrlf_tokp; assumption | apply nocrlf_no_ws; assumption | apply nocrlf_app ].
+
 (* ---- header records ---- *)
 Definition set_n h v := XHdr (Some v) (xh_A h) (xh_H0 h) (xh_novel h) (xh_count h) (xh_aux h).
 Definition set_A h v := XHdr (xh_n h) (Some v) (xh_H0 h) (xh_novel h) (xh_count h) (xh_aux h).
@@ -81,7 +89,7 @@ Proof.
   - unfold xstep. cbn [app]. rewrite strip_nonblank by reflexivity. cbn [orb Ascii.eqb Bool.eqb]. rewrite Hn.
     cbn [starts_with xcfg_r_nparticles s String.list_ascii_of_string Ascii.eqb Bool.eqb andb skipn xcfg_r_nparticles_from].
     rewrite (first_tok_sp _ (tokp_int n)), int_body_parse. reflexivity.
-  - apply nocrlf_app; [split; reflexivity|apply nocrlf_int].
+  - cbn [app]. nocrlf_line.
   - discriminate.
 Qed.
 
@@ -92,10 +100,15 @@ Proof.
   pose proof (tokp_gen _ _ _ Eb) as Tb. split; [|split].
   - unfold xstep. cbn [app]. rewrite strip_nonblank by reflexivity. cbn [orb Ascii.eqb Bool.eqb]. rewrite Hn.
     cbn [starts_with xcfg_r_A s String.list_ascii_of_string Ascii.eqb Bool.eqb andb skipn xcfg_r_A_from].
-    rewrite (first_tok_sp_mid _ _ Tb), (gen_parse _ _ _ Eb). reflexivity.
-  - apply nocrlf_app; [split; reflexivity|]. apply nocrlf_app; [apply nocrlf_no_ws; apply Tb|split; reflexivity].
+    rewrite (first_tok_sp_mid _ _ Tb), (gen_parse _ _ _ Eb). unfold set_A. rewrite Hn. reflexivity.
+  - cbn [app]. nocrlf_line.
   - discriminate.
 Qed.
+
+Local Transparent int_body.
+Lemma int_body_123 : int_body 1 = ["1"%char] /\ int_body 2 = ["2"%char] /\ int_body 3 = ["3"%char].
+Proof. repeat split; vm_compute; reflexivity. Qed.
+Local Opaque int_body.
 
 Lemma step_H0 (i j : nat) d l h n0 : In i [1; 2; 3] -> In j [1; 2; 3] ->
   render xcfg_w_H0 [AInt (Z.of_nat i); AInt (Z.of_nat j); ANum d] = Some l -> xh_n h = Some n0 ->
@@ -103,21 +116,220 @@ Lemma step_H0 (i j : nat) d l h n0 : In i [1; 2; 3] -> In j [1; 2; 3] ->
 Proof.
   intros Hi Hj E Hn. cbn in E. destruct (print_gen 8 d) as [b|] eqn:Eb; [|discriminate]. injection E as E. subst l.
   pose proof (tokp_gen _ _ _ Eb) as Tb. rewrite !lpad0.
-  assert (forall k, In k [1; 2; 3] -> exists c, int_body (Z.of_nat k) = [c] /\ dval c = Some (N.of_nat k) /\ nocrlf [c]) as K.
-  { Local Transparent int_body. intros k Hk. cbn in Hk. destruct Hk as [<-|[<-|[<-|[]]]]; eexists; (split; [vm_compute; reflexivity|split; [reflexivity|split; reflexivity]]).
-    Local Opaque int_body. }
-  destruct (K i Hi) as [ci [Ei [Di Ni]]]. destruct (K j Hj) as [cj [Ej [Dj Nj]]]. rewrite Ei, Ej. split; [|split].
-  - unfold xstep. cbn [app]. rewrite strip_nonblank by reflexivity. cbn [orb Ascii.eqb Bool.eqb]. rewrite Hn.
-    cbn [starts_with xcfg_r_A xcfg_r_H0 s String.list_ascii_of_string Ascii.eqb Bool.eqb andb].
-    unfold digit_at. cbn [nth xcfg_r_H0_cols nth_error skipn]. rewrite Di, Dj. rewrite !Nat2N.id.
-    assert (((1 <=? i) && (i <=? 3) && (1 <=? j) && (j <=? 3))%nat = true) as ->.
-    { cbn in Hi, Hj. destruct Hi as [<-|[<-|[<-|[]]]]; destruct Hj as [<-|[<-|[<-|[]]]]; reflexivity. }
-    rewrite (first_tok_mid _ _ Tb), (gen_parse _ _ _ Eb). reflexivity.
-  - cbn [app]. change (?a :: ?b :: ?c :: ci :: ?r) with ([a; b; c] ++ [ci] ++ r).
-    apply nocrlf_app; [split; reflexivity|]. apply nocrlf_app; [exact Ni|]. cbn [app].
-    match goal with |- nocrlf (?a :: cj :: ?r) => change (a :: cj :: r) with ([a] ++ [cj] ++ r) end.
-    apply nocrlf_app; [split; reflexivity|]. apply nocrlf_app; [exact Nj|]. cbn [app].
-    match goal with |- nocrlf (?a :: ?b' :: ?c :: ?d' :: b ++ ?r) => change (a :: b' :: c :: d' :: b ++ r) with ([a; b'; c; d'] ++ b ++ r) end.
-    apply nocrlf_app; [split; reflexivity|]. apply nocrlf_app; [apply nocrlf_no_ws; apply Tb|split; reflexivity].
-  - discriminate.
+  destruct int_body_123 as [I1 [I2 I3]].
+  cbn in Hi, Hj.
+  destruct Hi as [<-|[<-|[<-|[]]]]; destruct Hj as [<-|[<-|[<-|[]]]]; cbn [Z.of_nat Pos.of_succ_nat Pos.succ]; rewrite ?I1, ?I2, ?I3;
+  (split; [|split; [cbn [app]; nocrlf_line|discriminate]]);
+  unfold xstep; cbn [app]; rewrite strip_nonblank by reflexivity; cbn [orb Ascii.eqb Bool.eqb]; rewrite Hn;
+  cbn [starts_with xcfg_r_A xcfg_r_H0 s String.list_ascii_of_string Ascii.eqb Bool.eqb andb];
+  unfold digit_at; cbn [nth xcfg_r_H0_cols nth_error skipn];
+  change (dval "1"%char) with (Some 1%N); change (dval "2"%char) with (Some 2%N); change (dval "3"%char) with (Some 3%N);
+  cbn [N.to_nat Pos.to_nat Pos.iter_op Nat.add Nat.leb andb];
+  rewrite (first_tok_mid _ _ Tb), (gen_parse _ _ _ Eb); unfold add_H0; rewrite Hn; reflexivity.
+Qed.
+
+Lemma step_novel h n0 : xh_n h = Some n0 -> xstep h xcfg_w_novel = XCont (set_novel h).
+Proof. intros Hn. unfold xstep. Local Transparent strip lstrip rstrip. cbn -[set_novel]. Local Opaque strip lstrip rstrip. rewrite Hn. unfold set_novel. rewrite Hn. reflexivity. Qed.
+
+Lemma step_count n l h n0 : render xcfg_w_entry_count [AInt n] = Some l -> xh_n h = Some n0 ->
+  xstep h l = XCont (set_count h n) /\ nocrlf l /\ l <> [].
+Proof.
+  intros E Hn. cbn in E. injection E as E. subst l. rewrite lpad0, app_nil_r. split; [|split; [cbn [app]; nocrlf_line|discriminate]].
+  unfold xstep. cbn [app]. rewrite strip_nonblank by reflexivity. cbn [orb Ascii.eqb Bool.eqb]. rewrite Hn.
+  cbn [starts_with xcfg_r_A xcfg_r_H0 xcfg_r_novel xcfg_r_entry_count s String.list_ascii_of_string Ascii.eqb Bool.eqb andb skipn xcfg_r_entry_count_from].
+  rewrite (first_tok_sp _ (tokp_int n)), int_body_parse. unfold set_count. rewrite Hn. reflexivity.
+Qed.
+
+Lemma step_aux (k : nat) nm l h n0 : str_tok_ok nm = true -> render xcfg_w_auxiliary [AInt (Z.of_nat k); AStr nm] = Some l -> xh_n h = Some n0 ->
+  xstep h l = XCont (add_aux h k nm) /\ nocrlf l /\ l <> [].
+Proof.
+  intros Hnm E Hn. destruct (str_tok_ok_parts _ Hnm) as [N1 [N2 _]]. cbn in E. injection E as E. subst l. rewrite !lpad0.
+  split; [|split; [cbn [app]; nocrlf_line|discriminate]].
+  unfold xstep. cbn [app]. rewrite strip_nonblank by reflexivity. cbn [orb Ascii.eqb Bool.eqb]. rewrite Hn.
+  cbn [starts_with xcfg_r_A xcfg_r_H0 xcfg_r_novel xcfg_r_entry_count s String.list_ascii_of_string Ascii.eqb Bool.eqb andb].
+  unfold aux_match. cbn [starts_with s String.list_ascii_of_string Ascii.eqb Bool.eqb andb List.length skipn].
+  fold take_digits. rewrite int_body_nonneg.
+  rewrite (take_digits_spec _ "]"%char _ (digitsN_lt10 _) eq_refl).
+  rewrite skipn_app_exact.
+  assert (nonempty (map dchar (digitsN (N.of_nat k))) = true) as ->.
+  { pose proof (digitsN_nonnil (N.of_nat k)). destruct (digitsN (N.of_nat k)); [contradiction|reflexivity]. }
+  cbn [andb starts_with Ascii.eqb Bool.eqb skipn]. rewrite <- int_body_nonneg, int_body_parse, Nat2Z.id.
+  rewrite (first_tok_sp_mid nm _ (conj N1 N2)). unfold add_aux. rewrite Hn. reflexivity.
+Qed.
+
+Lemma step_blank h : xstep h [] = XCont h.
+Proof. unfold xstep. Local Transparent strip lstrip rstrip. cbn. Local Opaque strip lstrip rstrip. reflexivity. Qed.
+
+(* the first mass line ends the header loop (and is consumed) *)
+Lemma fix_body_digit p d : dneg d = false -> exists k t, fix_body p d = dchar k :: t /\ lt10 k.
+Proof.
+  Local Transparent fix_body. intros Hn. unfold fix_body. destruct (fix_split p d) as [H1 [_ [H3 _]]]. rewrite Hn. unfold body_of. cbn [sign_str app].
+  destruct (firstn _ _) as [|k r]; [contradiction|]. inversion H1; subst. exists k. eexists. split; [reflexivity|assumption]. Local Opaque fix_body.
+Qed.
+
+Lemma step_mass d l h n0 : dneg d = false -> render xcfg_w_mass [ANum d] = Some l -> xh_n h = Some n0 ->
+  xstep h l = XBreak /\ nocrlf l /\ l <> [] /\ split_ws l = [l] /\ isfloat l = true.
+Proof.
+  intros Hd E Hn. cbn in E. injection E as E. subst l. rewrite lpad0, app_nil_r.
+  destruct (fix_body_digit 4 d Hd) as [k [t [Ef Hk]]]. pose proof (tokp_fix 4 d) as [T1 T2].
+  split; [|split; [apply nocrlf_fix|split; [exact T2|split; [apply split_tok; assumption|unfold isfloat; rewrite fix_body_parse; reflexivity]]]].
+  unfold xstep. rewrite <- (app_nil_r (fix_body 4 d)) at 1. rewrite (is_nil_strip_tok _ _ (conj T1 T2)). rewrite Ef.
+  destruct (dchar_props k Hk) as [Dk _].
+  assert (Ascii.eqb (dchar k) "#"%char = false) as Hh.
+  { destruct (Ascii.eqb (dchar k) "#"%char) eqn:Eh; [|reflexivity]. apply Ascii.eqb_eq in Eh. rewrite Eh in Dk. discriminate. }
+  rewrite Hh. cbn [orb]. rewrite Hn.
+  unfold xcfg_r_A, xcfg_r_H0, xcfg_r_novel, xcfg_r_entry_count, aux_match. cbn [s String.list_ascii_of_string].
+  repeat match goal with |- context [starts_with (?c0 :: ?p) (dchar k :: t)] => rewrite (starts_with_digit c0 p k t eq_refl Hk) end. reflexivity.
+Qed.
+
+(* ---- data block ---- *)
+Lemma masses_nonneg : forallb (fun kv => negb (dneg (snd kv))) xcfg_masses = true.
+Proof. vm_compute. reflexivity. Qed.
+Lemma mass_nonneg el : dneg (mass_of el) = false.
+Proof.
+  unfold mass_of. destruct (find _ xcfg_masses) as [kv|] eqn:E; [|reflexivity].
+  apply find_some in E. destruct E as [Hin _]. pose proof masses_nonneg as M. rewrite forallb_forall in M.
+  apply negb_true_iff. apply M. exact Hin.
+Qed.
+
+Lemma map_opt_length {A B} (f : A -> option B) l : forall r, map_opt f l = Some r -> List.length r = List.length l.
+Proof.
+  induction l as [|x l IH]; intros r E; cbn in E; [inversion E; reflexivity|].
+  destruct (f x); [|discriminate]. destruct (map_opt f l) as [r'|]; [|discriminate]. inversion E; subst. cbn. f_equal. apply IH. reflexivity.
+Qed.
+
+Lemma nocrlf_join bs : Forall (fun t => no_ws t = true /\ t <> []) bs -> nocrlf (join [sp] bs).
+Proof.
+  induction 1 as [|t r [H1 _] Hr IH]; [exact nocrlf_nil|]. destruct r as [|t2 r'].
+  - cbn [join]. apply nocrlf_no_ws. exact H1.
+  - change (join [sp] (t :: t2 :: r')) with (t ++ [sp] ++ join [sp] (t2 :: r')).
+    apply nocrlf_app; [apply nocrlf_no_ws; exact H1|]. apply nocrlf_app; [split; reflexivity|exact IH].
+Qed.
+
+Definition atom_ok (a : catom) : Prop := str_tok_ok (c_el a) = true /\ isfloat (c_el a) = false.
+Definition canon_catom (cols : list (str * (catom -> dec))) (a : catom) : qcatom :=
+  QAtom (capitalize (c_el a)) (let '(x, y, z) := c_pos a in map g8 ([x; y; z] ++ map (fun c => snd c a) cols)).
+Definition goodx (l : str) : Prop := nocrlf l /\ split_ws l <> [].
+
+(* one entry line, read in element state [Some e] *)
+Lemma entry_read cols a e l t : entry_line cols a = Some l ->
+  xdata (Z.of_nat (3 + List.length cols)) (Some e) (l :: t) =
+  match xdata (Z.of_nat (3 + List.length cols)) (Some e) t with
+  | Some r => Some (QAtom e (let '(x, y, z) := c_pos a in map g8 ([x; y; z] ++ map (fun c => snd c a) cols)) :: r)
+  | None => None end /\ goodx l.
+Proof.
+  intros E. pose proof (roundtrip_xcfg_entry_partial _ _ _ E) as P. unfold entry_line in E.
+  destruct (c_pos a) as [[x y] z]. destruct (map_opt gen8 _) as [bs|] eqn:Eb; [|discriminate]. cbn [option_map] in E. inversion E; subst l. clear E.
+  destruct (map_gen8 _ _ Eb) as [F M]. pose proof (map_opt_length _ _ _ Eb) as L. rewrite app_length, map_length in L. cbn [List.length] in L.
+  rewrite (split_join_sp _ F) in P. split.
+  - cbn [xdata]. rewrite (split_join_sp _ F).
+    destruct bs as [|b1 [|b2 bs']]; [cbn in L; lia|cbn in L; lia|].
+    rewrite L. rewrite Z.eqb_refl. rewrite P. reflexivity.
+  - split; [apply nocrlf_join; exact F|]. rewrite (split_join_sp _ F). destruct bs; [cbn in L; lia|discriminate].
+Qed.
+
+Lemma xdata_mass c el l r : split_ws l = [l] -> isfloat l = true -> xdata c el (l :: r) = xdata c el r.
+Proof. intros H1 H2. cbn [xdata]. rewrite H1, H2. reflexivity. Qed.
+Lemma xdata_el c el l r : split_ws l = [l] -> isfloat l = false -> xdata c el (l :: r) = xdata c (Some (capitalize (strip l))) r.
+Proof. intros H1 H2. cbn [xdata]. rewrite H1, H2. reflexivity. Qed.
+
+Lemma data_block cols : forall l prev ls, Forall atom_ok l -> C04_Xcfg.atom_block cols prev l = Some ls ->
+  xdata (Z.of_nat (3 + List.length cols)) (option_map capitalize prev) ls = Some (map (canon_catom cols) l) /\ Forall goodx ls.
+Proof.
+  induction l as [|a r IH]; intros prev ls F E.
+  - cbn in E. inversion E. split; [reflexivity|constructor].
+  - inversion F as [|? ? [Hel Hnf] Fr]; subst. cbn [C04_Xcfg.atom_block] in E.
+    destruct (entry_line cols a) as [e|] eqn:Ee; [|exfalso; repeat match type of E with context [match ?x with _ => _ end] => destruct x end; discriminate].
+    destruct (C04_Xcfg.atom_block cols (Some (c_el a)) r) as [t|] eqn:Et; [|exfalso; repeat match type of E with context [match ?x with _ => _ end] => destruct x end; discriminate].
+    destruct (IH _ _ Fr Et) as [IH1 IH2]. cbn [option_map] in IH1.
+    destruct (str_tok_ok_parts _ Hel) as [N1 [N2 _]].
+    destruct (match prev with Some p => str_eqb p (c_el a) | None => false end) eqn:Same.
+    + (* same element as the previous atom: no mass / element lines *)
+      destruct prev as [p|]; [|discriminate]. apply str_eqb_eq in Same. subst p. inversion E; subst ls. cbn [app option_map].
+      destruct (entry_read cols a (capitalize (c_el a)) e t Ee) as [R G]. rewrite R, IH1. split; [reflexivity|constructor; assumption].
+    + destruct (render xcfg_w_mass [ANum (mass_of (c_el a))]) as [m|] eqn:Em; [|discriminate]. cbn [option_map] in E. inversion E; subst ls. clear E.
+      cbn [app]. destruct (step_mass _ _ (XHdr (Some 0%Z) None [] false None []) 0%Z (mass_nonneg _) Em eq_refl) as [_ [Nm [_ [Sm Fm]]]].
+      rewrite (xdata_mass _ _ _ _ Sm Fm), (xdata_el _ _ _ _ (split_tok _ N1 N2) Hnf).
+      assert (strip (c_el a) = c_el a) as -> by (apply strip_id; [apply no_ws_starts|apply no_ws_ends]; exact N1).
+      destruct (entry_read cols a (capitalize (c_el a)) e t Ee) as [R G]. rewrite R, IH1. split; [reflexivity|].
+      constructor; [split; [exact Nm|rewrite Sm; discriminate]|]. constructor; [split; [apply nocrlf_no_ws; exact N1|rewrite (split_tok _ N1 N2); discriminate]|].
+      constructor; assumption.
+Qed.
+
+(* ---- the auxiliary records and the reconstruction of the column names ---- *)
+Definition add_auxs h (l : list (nat * str)) := XHdr (xh_n h) (xh_A h) (xh_H0 h) (xh_novel h) (xh_count h) (rev l ++ xh_aux h).
+
+Lemma xloop_cont h l r h' : xstep h l = XCont h' -> xloop h (l :: r) = xloop h' r.
+Proof. intros E. cbn [xloop]. rewrite E. reflexivity. Qed.
+
+Lemma aux_loop (cols : list (str * (catom -> dec))) : forall start h n0 auxl rest,
+  forallb (fun nm => str_tok_ok nm) (map fst cols) = true -> xh_n h = Some n0 ->
+  map_opt (fun ic => render xcfg_w_auxiliary [AInt (Z.of_nat (fst ic)); AStr (fst (snd ic))]) (combine (seq start (List.length cols)) cols) = Some auxl ->
+  xloop h (auxl ++ rest) = xloop (add_auxs h (combine (seq start (List.length cols)) (map fst cols))) rest /\
+  Forall (fun l => nocrlf l /\ l <> []) auxl.
+Proof.
+  induction cols as [|[nm f] cols IH]; intros start h n0 auxl rest Hok Hn E.
+  - cbn in E. inversion E. split; [destruct h; reflexivity|constructor].
+  - cbn [List.length seq combine map_opt fst snd map forallb] in *. apply andb_true_iff in Hok. destruct Hok as [Hnm Hok].
+    destruct (render xcfg_w_auxiliary [AInt (Z.of_nat start); AStr nm]) as [l|] eqn:El; [|discriminate].
+    destruct (map_opt _ (combine (seq (S start) (List.length cols)) cols)) as [auxl'|] eqn:Er; [|discriminate]. inversion E; subst auxl. clear E.
+    destruct (step_aux start nm l h n0 Hnm El Hn) as [S1 [N1 N2]].
+    destruct (IH (S start) (add_aux h start nm) n0 auxl' rest Hok Hn Er) as [I1 I2].
+    split; [|constructor; [split; assumption|exact I2]].
+    cbn [app]. rewrite (xloop_cont _ _ _ _ S1), I1. f_equal. unfold add_auxs, add_aux. cbn [xh_n xh_A xh_H0 xh_novel xh_count xh_aux rev].
+    rewrite <- app_assoc. reflexivity.
+Qed.
+
+Lemma find_key {V} (l : list (nat * V)) k v : NoDup (map fst l) -> In (k, v) l -> find (fun e => (fst e =? k)%nat) l = Some (k, v).
+Proof.
+  induction l as [|[k' v'] l IH]; intros ND Hin; [destruct Hin|]. cbn [map fst] in ND. inversion ND as [|? ? Hni ND']; subst.
+  cbn [find fst]. destruct Hin as [Eq|Hin].
+  - inversion Eq; subst. rewrite Nat.eqb_refl. reflexivity.
+  - destruct (k' =? k)%nat eqn:E; [|apply IH; assumption]. apply Nat.eqb_eq in E. subst k'. exfalso. apply Hni.
+    apply in_map_iff. exists (k, v). split; [reflexivity|exact Hin].
+Qed.
+
+Lemma map_fst_combine_seq {V} (names : list V) start : map fst (combine (seq start (List.length names)) names) = seq start (List.length names).
+Proof. revert start. induction names as [|x r IH]; intros start; [reflexivity|]. cbn. f_equal. apply IH. Qed.
+
+Lemma in_combine_seq {V} (names : list V) d start k : (k < List.length names)%nat ->
+  In (start + k, nth k names d) (combine (seq start (List.length names)) names).
+Proof.
+  revert start k. induction names as [|x r IH]; intros start k H; [cbn in H; lia|]. cbn [List.length seq combine]. destruct k as [|k].
+  - left. rewrite Nat.add_0_r. reflexivity.
+  - right. replace (start + S k) with (S start + k) by lia. apply IH. cbn in H. lia.
+Qed.
+
+Lemma fold_max_le l m : (forall x, In x l -> x <= m) -> fold_right Nat.max 0 l <= m.
+Proof. induction l as [|x r IH]; intros H; [cbn; lia|]. cbn. apply Nat.max_lub; [apply H; left; reflexivity|apply IH; intros y Hy; apply H; right; exact Hy]. Qed.
+Lemma fold_max_ge l x : In x l -> x <= fold_right Nat.max 0 l.
+Proof. induction l as [|y r IH]; intros H; [destruct H|]. cbn. destruct H as [->|H]; [apply Nat.le_max_l|]. etransitivity; [apply IH; exact H|apply Nat.le_max_r]. Qed.
+
+Lemma aux_names (names : list str) (dflt : nat -> str) :
+  let auxs := rev (combine (seq 0 (List.length names)) names) in
+  let auxnum := match auxs with [] => O | _ => S (fold_right Nat.max O (map fst auxs)) end in
+  auxnum = List.length names /\
+  map (fun k => match find (fun e => (fst e =? k)%nat) auxs with Some e => snd e | None => dflt k end) (seq 0 auxnum) = names.
+Proof.
+  intros auxs auxnum. set (m := List.length names) in *.
+  assert (map fst auxs = rev (seq 0 m)) as MF by (unfold auxs, m; rewrite map_rev, map_fst_combine_seq; reflexivity).
+  assert (NoDup (map fst auxs)) as ND by (rewrite MF; apply NoDup_rev; apply seq_NoDup).
+  assert (auxnum = m) as EM.
+  { unfold auxnum. destruct names as [|x r] eqn:En; [reflexivity|]. rewrite <- En in *.
+    assert (m = S (List.length r)) as Hm by (unfold m; rewrite En; reflexivity).
+    destruct auxs as [|e es] eqn:Ea.
+    - exfalso. apply (f_equal (@List.length _)) in Ea. unfold auxs in *. rewrite rev_length, combine_length, seq_length in Ea. fold m in Ea. rewrite Nat.min_id in Ea. cbn in Ea. lia.
+    - rewrite <- Ea in *. rewrite MF. f_equal.
+      apply Nat.le_antisymm.
+      + apply fold_max_le. intros x0 Hx. apply in_rev in Hx. apply in_seq in Hx. lia.
+      + assert (In (List.length r) (rev (seq 0 m))) as Hin by (apply in_rev; rewrite rev_involutive; apply in_seq; lia).
+        pose proof (fold_max_ge _ _ Hin). lia. }
+  split; [exact EM|]. rewrite EM.
+  apply nth_ext with (d := []) (d' := []); [rewrite map_length, seq_length; reflexivity|].
+  intros k Hk. rewrite map_length, seq_length in Hk.
+  rewrite (nth_indep _ [] ((fun k0 => match find (fun e => (fst e =? k0)%nat) auxs with Some e => snd e | None => dflt k0 end) 0))
+    by (rewrite map_length, seq_length; exact Hk).
+  rewrite map_nth, seq_nth by exact Hk. cbn [Nat.add].
+  assert (In (k, nth k names []) auxs) as Hin by (unfold auxs; apply in_rev; rewrite rev_involutive; exact (in_combine_seq names [] 0 k Hk)).
+  rewrite (find_key _ _ _ ND Hin). reflexivity.
 Qed.
